@@ -242,6 +242,13 @@ def handleSchemaFrag (x : Sexp) : Option String :=
       | some f => s!"(ok {encFrag f})"
       | none => "(err)")
     | none => some "(bad-op)"
+  | .list [.atom "sty", .atom "to-cedar-checked", f, .list (.atom "nonrec" :: ns)] =>
+    match decFrag f, decStrs ns with
+    | some f, some ns => some (match toCedarChecked f (ns.map decQName) with
+      | .ok toks => "(toks" ++ String.join (toks.map fun k => " " ++ encTok (unfixTok k)) ++ ")"
+      | .error (.nameCollisions _) => "(err collision)"
+      | .error (.unconvertibleShape _) => "(err nonrecord)")
+    | _, _ => some "(bad-op)"
   | .list [.atom "sty", .atom "collect-frag", .list (.atom "toks" :: ts)] =>
     match ts.mapM decTok with
     | some ts => some (match parseFragmentCollected (ts.map fixTok) with
